@@ -327,9 +327,13 @@ def _bmc_worker(args):
     return r
 
 
-def write_consts(ctx, name, nt, nx, sync=False, rollback=False, faults=False, crash=False, versions=False, budget=1):
+def write_consts(ctx, name, nt, nx, sync=False, rollback=False, faults=False, crash=False, versions=False, budget=1, family='v2'):
     p = os.path.join(ctx.out, 'consts_%s.go' % name)
     b = lambda x: 'true' if x else 'false'
+    if family == 'v3':
+        open(p, 'w').write('//go:build verif\n\npackage verifv3\n\nconst (\n\tNX = %d\n\tWithRollback = %s\n\tWithFaults = %s\n'
+                           '\tWithCrash = %s\n\tBudget = %d\n)\n' % (nx, b(rollback), b(faults), b(crash), budget))
+        return p
     open(p, 'w').write('//go:build verif\n\npackage verifv2\n\nconst (\n\tNT = %d\n\tNX = %d\n\tWithSync = %s\n\tWithRollback = %s\n'
                        '\tWithFaults = %s\n\tWithCrash = %s\n\tWithVersions = %s\n\tBudget = %d\n)\n' % (nt, nx, b(sync), b(rollback), b(faults), b(crash), b(versions), budget))
     return p
@@ -350,16 +354,27 @@ def num_choices(nt, nx):
             'connect': ch_connect, 'disc': ch_disc, 'restart': ch_restart, 'stutter': ch_stutter}
 
 
+V3_FILES = {
+    'internal/verifv3/step.go': 'v3/step.go', 'internal/verifv3/entry.go': 'v3/entry.go', 'internal/verifv3/props.go': 'v3/props.go',
+    'pkg/controller/v3/transaction/zz_verif_ctor.go': 'v3/ctor.go',
+}
+V3_CUTS = {
+    'github.com/onosproject/onos-config/pkg/utils/v3/tree.BuildTree': 'nil-bytes-nil-error',
+}
+
+
 def run_protocol(ctx, driver, name, cfg, queries, contracts=None, cuts=True, unwind=8, timeout_s=1500, files=None,
                  pkg=None, known=None, confirm_depth=28):
     """cfg: dict(nt, nx, sync, rollback, faults, crash); queries: list of (kind, depth, [predicate names]) with
     kind 'reach' (must be SAT: vacuity witness) or 'bad' (must be UNSAT; SAT models are replayed natively);
     contracts: None = all assertion obligations, or a list of label prefixes to decide."""
-    pkg = pkg or (driver.MOD + '/internal/verifv2')
-    f = dict(files or V2_FILES)
-    f['internal/verifv2/consts.go'] = write_consts(ctx, name, **cfg)
-    prog = ctx.export(f, ['./internal/verifv2'], [pkg + '.VerifStepEntry', pkg + '.VerifRun'], tag='ts_' + name)
-    opts = {'cuts': dict(CONTENT_CUTS)} if cuts else {}
+    family = cfg.get('family', 'v2')
+    hp = 'internal/verif' + family
+    pkg = pkg or (driver.MOD + '/' + hp)
+    f = dict(files or (V3_FILES if family == 'v3' else V2_FILES))
+    f[hp + '/consts.go'] = write_consts(ctx, name, **cfg)
+    prog = ctx.export(f, ['./' + hp], [pkg + '.VerifStepEntry', pkg + '.VerifRun'], tag='ts_' + name)
+    opts = {'cuts': dict(V3_CUTS if family == 'v3' else CONTENT_CUTS)} if cuts else {}
     t = TS(prog, pkg, unwind=unwind, opts=opts)
     res = {'name': name, 'cfg': cfg, 'extract_s': round(t.extract_s, 1), 'leaves': len(t.state_leaves), 'defs': len(t.defs),
            'size': t.size(), 'instrs': t.stats['instrs'], 'funcs': dict(t.stats['funcs']), 'stubs': dict(t.stats['stubs']),
@@ -389,6 +404,9 @@ def run_protocol(ctx, driver, name, cfg, queries, contracts=None, cuts=True, unw
     key = name
     _TS[key] = t
     ch = num_choices(cfg['nt'], cfg['nx'])
+    if family == 'v3':
+        nx = cfg['nx']
+        ch = {'cfg': nx, 'append': nx, 'stutter': nx + 1 + nx + 2}
     jobs = []
     for q in queries:
         kind, depth, preds = q[:3]
@@ -421,9 +439,9 @@ def run_protocol(ctx, driver, name, cfg, queries, contracts=None, cuts=True, unw
 def post_protocol(ctx, driver, res, replay_budget=3):
     """classify, replay natively, and append to ctx.results in the driver's result format"""
     files, pkg = res['files'], res['pkg']
-    pkgdir = 'internal/verifv2'
+    pkgdir = 'internal/verif' + res['cfg'].get('family', 'v2')
     params = None
-    out = {'entry': pkg + '.VerifStepEntry', 'harness': 'v2-' + res['name'], 'forks': res['cfg'], 'obligations': [], 'covers': [],
+    out = {'entry': pkg + '.VerifStepEntry', 'harness': res['cfg'].get('family', 'v2') + '-' + res['name'], 'forks': res['cfg'], 'obligations': [], 'covers': [],
            'symex_s': res['extract_s'], 'total_s': res['extract_s'],
            'stats': {'instrs': res['instrs'], 'blocks': res['blocks'], 'funcs': res['funcs'], 'stubs': res['stubs']}}
     for c in res['covers']:
